@@ -499,7 +499,11 @@ func (h *histState) doProbe(i int, op *Op) {
 	}
 	probeLogging = true
 	callLog = nil
-	cs, partial := h.lintCall(i, p, h.regs[op.Reg], "ex", 0, m.Sel)
+	path := op.Path
+	if path == "" || ((path == "deprecated" || path == "depsource") && o.spec.Kind != KCert) {
+		path = "ex"
+	}
+	cs, partial := h.lintCall(i, p, h.regs[op.Reg], path, op.Perm, m.Sel)
 	probeLogging = false
 	if cs.Hung {
 		return
@@ -510,9 +514,10 @@ func (h *histState) doProbe(i int, op *Op) {
 	h.curScriptBad = nil
 	o.linted = true
 	h.ctr.inc("probe_ops")
-	rec := &lintRecord{op: i, obj: op.Obj, reg: op.Reg, cfg: m.Cfg, path: "ex", fresh: op.Fresh, canon: cs, partial: partial, sel: m.Sel, script: op.Script}
+	h.ctr.inc("probe_path_" + path)
+	rec := &lintRecord{op: i, obj: op.Obj, reg: op.Reg, cfg: m.Cfg, path: path, fresh: op.Fresh, canon: cs, partial: partial, sel: m.Sel, script: op.Script}
 	h.recs = append(h.recs, rec)
-	h.log.Add("op %d probe obj=%d reg=%d cfg=%d script=%s -> %s calls=%d", i, op.Obj, op.Reg, m.Cfg, shortHash(mustJSON(op.Script)), cs.hash(), len(clog))
+	h.log.Add("op %d probe obj=%d reg=%d cfg=%d path=%s script=%s -> %s calls=%d", i, op.Obj, op.Reg, m.Cfg, path, shortHash(mustJSON(op.Script)), cs.hash(), len(clog))
 	h.checkReadOnly(i, o)
 	if cs.Panic != "" {
 		for _, n := range sortedKeys(op.Script) {
@@ -698,8 +703,13 @@ func (h *histState) doDirect(i int, op *Op) {
 	if err1 != nil || err2 != nil {
 		return
 	}
-	cs, _ := h.lintCall(i, a, reg, "ex", 0, m.Sel)
-	h.log.Add("op %d direct obj=%d reg=%d -> %s", i, op.Obj, op.Reg, cs.hash())
+	dpath := op.Path
+	if dpath == "" || ((dpath == "deprecated" || dpath == "depsource") && o.spec.Kind != KCert) {
+		dpath = "ex"
+	}
+	cs, _ := h.lintCall(i, a, reg, dpath, op.Perm, m.Sel)
+	h.ctr.inc("direct_path_" + dpath)
+	h.log.Add("op %d direct obj=%d reg=%d path=%s -> %s", i, op.Obj, op.Reg, dpath, cs.hash())
 	if cs.Panic != "" || cs.Hung {
 		return
 	}
@@ -1001,9 +1011,29 @@ func genFault(seed uint64, prop, tier string) *Plan {
 					sc[n] = genAction(g, d, prop)
 				}
 			}
-			p.Ops = append(p.Ops, Op{K: "probe", Obj: obj, Reg: reg, Fresh: g.Chance(0.3), Script: sc})
+			pop := Op{K: "probe", Obj: obj, Reg: reg, Fresh: g.Chance(0.3), Script: sc}
+			// the same lifecycle through the other ways of running a registry's lints: each lint's own
+			// Execute in a seeded order, and the deprecated Lint values of ByName / BySource
+			switch g.Intn(10) {
+			case 0, 1:
+				pop.Path, pop.Perm = "perlint", g.U64()|1
+			case 2:
+				pop.Path = "deprecated"
+			case 3:
+				pop.Path = "depsource"
+			}
+			p.Ops = append(p.Ops, pop)
 		case 1:
-			p.Ops = append(p.Ops, Op{K: "direct", Obj: obj, Reg: reg})
+			dop := Op{K: "direct", Obj: obj, Reg: reg}
+			switch g.Intn(10) {
+			case 0:
+				dop.Path, dop.Perm = "perlint", g.U64()|1
+			case 1:
+				dop.Path = "deprecated"
+			case 2:
+				dop.Path = "depsource"
+			}
+			p.Ops = append(p.Ops, dop)
 		case 2:
 			c := g.Intn(len(p.Cfgs)+1) - 1
 			hg.ensureLoaded(c)
